@@ -120,7 +120,8 @@ class Check:
                 "xcol": rng.choice([None, None, None, "concat_ws('-', name, size)", "upper(name)", "concat('n=', name)", "length(name)", "concat_ws('/', 'p', ext, name)"]),
                 "nopath": rng.random() < 0.5,
                 # clause order: FROM in its usual place, or closing the query
-                "from_last": rng.random() < 0.15}
+                "from_last": rng.random() < 0.15,
+                "session": rng.random() < 0.12}
 
     def sample_view(self, case):
         c = dict(case)
@@ -157,7 +158,7 @@ class Check:
             c = copy.deepcopy(case)
             del c["faults"][i]
             yield c
-        for k in ("xcol", "fmt", "from_last"):
+        for k in ("xcol", "fmt", "from_last", "session"):
             if case.get(k):
                 c = copy.deepcopy(case)
                 c[k] = None
@@ -260,6 +261,20 @@ class Check:
                                                    {"query": q, "N": N, "M": M, "env": ei, "got_keys": [[x.decode("utf-8", "replace") for x in k] for k in ks[:6]],
                                                     "want_keys": [[x.decode("utf-8", "replace") for x in k] for k in keyseq0[:min(len(rows), 6)]]}))
                             return viols
+            if case.get("session") and M >= 2 and not viols and case.get("only_n") is None and not case["plans"][0].get("tty") and not any(c in base for c in "\n\r"):
+                # limited and unlimited queries as neighbours in one interactive session (`fselect -i`): what one query decided about
+                # stopping early, counting or buffering must not reach the next
+                N_ = max(1, M // 2)
+                for qa, qb in ((build(), build(N_)), (build(1), build()), (build(N_), build(M + 1))):
+                    ra = sb.run([qa], plan=case["plans"][0], tz=case["tz"])
+                    rb = sb.run([qb], plan=case["plans"][0], tz=case["tz"])
+                    rs = sb.run(["-i"], plan=case["plans"][0], tz=case["tz"], stdin_text=qa + "\n" + qb + "\nexit\n")
+                    i_ = rs.stdout.find(ra.stdout)
+                    if rs.sim or rs.signal is not None or i_ < 0 or rs.stdout.find(rb.stdout, i_ + len(ra.stdout)) < 0 or rs.stdout.count(b"\0") != ra.stdout.count(b"\0") + rb.stdout.count(b"\0"):
+                        viols.append(Violation(PROP, "C06.session", ["C06.session", "second_query_of_a_session_differs", shape],
+                                               {"first": qa, "second": qb, "outcome": rs.summary(), "one_shot_cells": ra.stdout.count(b"\0") + rb.stdout.count(b"\0"), "session_cells": rs.stdout.count(b"\0")}))
+                        return viols
+                    ctx.metric("sessions")
             fmt = case.get("fmt")
             plain = not any(c in n["path"] for n in world["nodes"] for c in "\n\t\r<") and not any("zip" in n for n in world["nodes"])
             if fmt and plain and case.get("only_n") is None:
